@@ -638,6 +638,9 @@ pub struct SweepCase {
     pub pick: u64,
     /// bit mask of contracts left upgraded-but-not-migrated by their owners
     pub open_windows: u8,
+    /// further calls (entry point, argument seeds, target pick) made after the first one
+    #[serde(default)]
+    pub more: Vec<(Ep, Vec<u64>, u64)>,
 }
 
 #[derive(Clone, Copy, Debug, PartialEq, Eq)]
@@ -692,12 +695,14 @@ pub fn strategy(rule: Rule) -> Option<BoxedStrategy<SweepCase>> {
     let focus: Vec<Ep> = eps.iter().filter(|e| rule.focus(e)).cloned().collect();
     let listed: BoxedStrategy<Ep> = if focus.is_empty() { prop::sample::select(eps).boxed() } else { prop_oneof![1 => prop::sample::select(eps), 1 => prop::sample::select(focus)].boxed() };
     let pick_ep: BoxedStrategy<Ep> = if unlisted.is_empty() { listed } else { prop_oneof![1 => listed, 1 => prop::sample::select(unlisted)].boxed() };
+    let one = (pick_ep, prop::collection::vec(any::<u64>(), 8), any::<u64>()).prop_map(|(ep, mut seeds, pick)| {
+        seeds.truncate(ep.types.len());
+        (ep, seeds, pick)
+    });
+    let one = one.boxed();
     Some(
-        (pick_ep, prop::collection::vec(any::<u64>(), 8), any::<u64>(), prop_oneof![3 => Just(0u8), 1 => 0u8..16])
-            .prop_map(|(ep, mut seeds, pick, open_windows)| {
-                seeds.truncate(ep.types.len());
-                SweepCase { ep, seeds, pick, open_windows }
-            })
+        (one.clone(), prop_oneof![3 => Just(0u8), 1 => 0u8..16], prop_oneof![1 => Just(vec![]).boxed(), 1 => prop::collection::vec(one, 1..4).boxed()])
+            .prop_map(|((ep, seeds, pick), open_windows, more)| SweepCase { ep, seeds, pick, open_windows, more })
             .boxed(),
     )
 }
@@ -708,7 +713,7 @@ pub fn fixed_cases(per_ep: u64) -> Vec<SweepCase> {
     for ep in probeable_eps(&scan_repo()).into_iter().filter(|e| e.unlisted) {
         for i in 0..per_ep {
             let seeds = (0..ep.types.len() as u64).map(|k| mix(i, 100 + k)).collect();
-            v.push(SweepCase { ep: ep.clone(), seeds, pick: i, open_windows: if i % 4 == 3 { (i / 4 % 16) as u8 } else { 0 } });
+            v.push(SweepCase { ep: ep.clone(), seeds, pick: i, open_windows: if i % 4 == 3 { (i / 4 % 16) as u8 } else { 0 }, more: vec![] });
         }
     }
     v
@@ -738,23 +743,38 @@ struct Obs {
 pub fn run(case: &SweepCase, cx: &mut Cx, rule: Rule) -> Result<(), String> {
     let all = scan_names();
     let sw = build_world(case.open_windows, &all);
+    if !step(&sw, &case.ep, &case.seeds, case.pick, cx, rule)? {
+        return Ok(());
+    }
+    // further calls on the state the earlier ones left behind; the invariant is applied to every call
+    for (k, (ep, seeds, pick)) in case.more.iter().enumerate() {
+        cx.label(["sweep_sequence_of_2", "sweep_sequence_of_3", "sweep_sequence_of_4"][k.min(2)]);
+        if !step(&sw, ep, seeds, *pick, cx, rule)? {
+            break;
+        }
+    }
+    Ok(())
+}
+
+/// one call; Ok(false) = the sequence must stop here (the mock produced a state no transaction could)
+fn step(sw: &SweepWorld, ep: &Ep, seeds: &[u64], pick: u64, cx: &mut Cx, rule: Rule) -> Result<bool, String> {
     let env = sw.env().clone();
-    let Some(target) = sw.target(&case.ep.contract, case.pick) else { return Ok(()) };
-    cx.label(&format!("sweep:{}::{}", case.ep.contract, case.ep.name));
-    if case.ep.unlisted {
+    let Some(target) = sw.target(&ep.contract, pick) else { return Ok(false) };
+    cx.label(&format!("sweep:{}::{}", ep.contract, ep.name));
+    if ep.unlisted {
         cx.label("sweep_entry_point_not_in_pinned_inventory");
     }
     let mut args: SVec<Val> = SVec::new(&env);
-    for (i, (t, s)) in case.ep.types.iter().zip(case.seeds.iter()).enumerate() {
-        args.push_back(sw.value_named(t, case.ep.names.get(i).map(|x| x.as_str()).unwrap_or(""), *s));
+    for (i, (t, s)) in ep.types.iter().zip(seeds.iter()).enumerate() {
+        args.push_back(sw.value_named(t, ep.names.get(i).map(|x| x.as_str()).unwrap_or(""), *s));
     }
-    if args.len() as usize != case.ep.types.len() {
-        return Ok(());
+    if args.len() as usize != ep.types.len() {
+        return Ok(false);
     }
     // call forwarding (target: Address, func: Symbol, args: Vec<Val>): in half of the cases the three are chosen
     // together, so that the forwarded call names a real entry point of the target with well-typed arguments
-    if let Some(i) = (0..case.ep.types.len().saturating_sub(2)).find(|i| case.ep.types[*i] == "Address" && case.ep.types[*i + 1] == "Symbol" && case.ep.types[*i + 2] == "Vec<Val>") {
-        let s0 = case.seeds[i + 1];
+    if let Some(i) = (0..ep.types.len().saturating_sub(2)).find(|i| ep.types[*i] == "Address" && ep.types[*i + 1] == "Symbol" && ep.types[*i + 2] == "Vec<Val>") {
+        let s0 = seeds[i + 1];
         if s0 % 2 == 0 {
             let mut all = probeable_eps(&scan_cached());
             if s0 % 4 == 0 {
@@ -769,7 +789,7 @@ pub fn run(case: &SweepCase, cx: &mut Cx, rule: Rule) -> Result<(), String> {
             if let Some(tgt) = tgt {
                 let mut inner: SVec<Val> = SVec::new(&env);
                 for (k, t) in e.types.iter().enumerate() {
-                    inner.push_back(sw.value_named(t, e.names.get(k).map(|x| x.as_str()).unwrap_or(""), mix(case.seeds[i + 2], k as u64)));
+                    inner.push_back(sw.value_named(t, e.names.get(k).map(|x| x.as_str()).unwrap_or(""), mix(seeds[i + 2], k as u64)));
                 }
                 args.set(i as u32, tgt.into_val(&env));
                 args.set(i as u32 + 1, Symbol::new(&env, &e.name).into_val(&env));
@@ -827,7 +847,7 @@ pub fn run(case: &SweepCase, cx: &mut Cx, rule: Rule) -> Result<(), String> {
     let collector = sw.w.gas.client.gas_collector();
     let ev0 = events_len(&env);
     env.mock_all_auths_allowing_non_root_auth();
-    let r = env.try_invoke_contract::<Val, soroban_sdk::Error>(&target, &Symbol::new(&env, &case.ep.name), args);
+    let r = env.try_invoke_contract::<Val, soroban_sdk::Error>(&target, &Symbol::new(&env, &ep.name), args);
     let ok = matches!(r, Ok(Ok(_)));
     let signers: Vec<Address> = env.auths().into_iter().map(|(a, _)| a).collect();
     let evs = events_since(&env, ev0);
@@ -839,10 +859,10 @@ pub fn run(case: &SweepCase, cx: &mut Cx, rule: Rule) -> Result<(), String> {
     if signers.iter().any(|s| sw.contracts.contains(s)) {
         // a contract "signed": only the mock can do that
         cx.count("sweep_discarded_contract_signature");
-        return Ok(());
+        return Ok(false);
     }
     let authorised = |a: &Address| signers.contains(a) || *a == target;
-    let what = format!("{}::{}({:?})", case.ep.contract, case.ep.name, case.ep.types);
+    let what = format!("{}::{}({:?})", ep.contract, ep.name, ep.types);
     match rule {
         Rule::Announce => {
             for e in evs.iter().filter(|e| e.0 == sw.w.gw.id && e.1.first() == Some(&sym("contract_called"))) {
@@ -881,21 +901,21 @@ pub fn run(case: &SweepCase, cx: &mut Cx, rule: Rule) -> Result<(), String> {
             }
             if before.is_operator != after.is_operator {
                 cx.count("sweep_operator_set_changed");
-                if !authorised(&sw.ops_owner) {
+                if !before.owners[2].as_ref().map(|o| authorised(o)).unwrap_or(false) {
                     return Err(format!("{} changed the operator set without its owner's authorisation", what));
                 }
             }
             if before.trusted != after.trusted {
                 cx.count("sweep_trusted_chains_changed");
-                if !authorised(&sw.w.its.owner) {
+                if !before.owners[3].as_ref().map(|o| authorised(o)).unwrap_or(false) {
                     return Err(format!("{} changed the trusted chains without the token service owner's authorisation", what));
                 }
             }
             for (i, (b, a)) in before.minters.iter().zip(after.minters.iter()).enumerate() {
                 if a != b {
                     cx.count("sweep_minters_changed");
-                    let owner = if i % 2 == 0 { sw.w.its.id.clone() } else { sw.t2_owner.clone() };
-                    if !authorised(&owner) {
+                    let owner = before.owners[4 + i % 2].clone();
+                    if !owner.as_ref().map(|o| authorised(o)).unwrap_or(false) {
                         return Err(format!("{} changed the minters of token {} without the token owner's authorisation", what, i % 2 + 1));
                     }
                 }
@@ -981,7 +1001,7 @@ pub fn run(case: &SweepCase, cx: &mut Cx, rule: Rule) -> Result<(), String> {
         _ => {}
     }
     let _ = ScVal::Void;
-    Ok(())
+    Ok(true)
 }
 
 fn scan_cached() -> Vec<Ep> {
